@@ -18,5 +18,5 @@ rm -f coq/work_build.log
 (cd /repo && for p in ./agent/ ./agent/utils/ ./agent/sessions/ ./agent/websockets/ ./agent/banner/ ./server/ ./app/store/ ./utils/tcpbridge/connection/; do
    go test -count=1 -vet=off -run '^$' $p >/dev/null 2>&1 || true; done
  for p in ./agent/ ./server/ ./agent/websockets/ ./agent/sessions/; do go test -race -count=1 -vet=off -run '^$' $p >/dev/null 2>&1 || true; done
- go build -o /dev/null ./server ./agent ./utils/tcpbridge/tcp-bridge-frontend ./utils/tcpbridge/tcp-bridge-backend >/dev/null 2>&1 || true) 
+ go build -o /dev/null ./server ./agent ./app ./utils/tcpbridge/tcp-bridge-frontend ./utils/tcpbridge/tcp-bridge-backend >/dev/null 2>&1 || true)
 echo "setup done"
